@@ -108,7 +108,12 @@ where
         should_continue: impl std::ops::Fn() -> bool + Clone,
     ) -> V {
         debug!("solve_root_goal(canonical_goal={:?})", canonical_goal);
-        assert!(self.stack.is_empty());
+        // A previous solve on this context may have been unwound by a panic
+        // (e.g. in a database callback) while goals were still in progress.
+        // Those goals will never be completed: discard them instead of
+        // letting them leak into this solve.
+        self.stack.clear();
+        self.search_graph.rollback_to(DepthFirstNumber::MIN);
         let minimums = &mut Minimums::new();
         self.solve_goal(canonical_goal, minimums, solver_stuff, should_continue)
     }
